@@ -1,5 +1,9 @@
 import subprocess,os,shutil,sys,json
-todo=[('B01','C06'),('B02','C08'),('B03','C02'),('B04','C16'),('B05','C10'),('B05','C11'),('B06','C14'),('B07','C15'),('B08','C07'),('B08','C18'),('B09','C08'),('B09','C09'),('B10','C01')]
+todo=[('B01','C06'),('B02','C08'),('B03','C02'),('B04','C16'),('B05','C10'),('B05','C11'),('B06','C14'),('B07','C15'),('B08','C07'),('B08','C18'),('B09','C08'),('B09','C09'),('B10','C01'),
+      ('B11','C16'),('B12','C16'),('B12','C20'),('B13','C10'),('B13','C11'),('B14','C14'),('B15','C01'),('B15','C19'),('B16','C20'),('B16','C18'),('B16','C07'),('B16','C06'),
+      ('B17','C09'),('B17','C01'),('B18','C02'),('B19','C12'),('B19','C08'),('B20','C18'),('B20','C15'),
+      ('B21','C06'),('B22','C01'),('B22','C19'),('B23','C07'),('B23','C06'),('B24','C15'),('B25','C18'),('B25','C01'),('B26','C11'),('B26','C10'),('B26','C12'),('B26','C20'),
+      ('B27','C14'),('B28','C02'),('B29','C16'),('B29','C20'),('B30','C08'),('B30','C01')]
 if len(sys.argv)>1: todo=[t for t in todo if t[0] in sys.argv[1:]]
 res=[]
 for name,pid in todo:
